@@ -311,6 +311,20 @@ def r5_cancellation_reported(ctx: Context) -> None:
                   f"TaskGraph.cancel|return {norm(r)}", loc(r), "returns the list", "returns something else")
     sites = _cancel_sites(ctx.repo)
     ctx.floor("C06.R5", "call sites of TaskGraph.cancel", len(sites), 4)
+    # a cascade started inside a loop must be ACCUMULATED: assigning its result to the collecting name drops the earlier cascades
+    for site in sites:
+        p = parent(site)
+        lp, below = p, site
+        while lp is not None and not isinstance(lp, ast.FunctionDef):
+            if isinstance(lp, (ast.For, ast.While)) and not (isinstance(lp, ast.For) and any(below is x for x in ast.walk(lp.iter))):
+                break  # the call is repeated by this loop (it is in the body, not the thing iterated over)
+            below, lp = lp, parent(lp)
+        if isinstance(lp, (ast.For, ast.While)):
+            acc = isinstance(p, ast.Call) and isinstance(p.func, ast.Attribute) and p.func.attr in ("extend", "update") and site in p.args
+            plus = isinstance(p, ast.AugAssign) and isinstance(p.op, ast.Add)
+            ctx.check(acc or plus, "C06.R5", f"{qualname(site)}|{norm(site)[:40]} accumulated across the loop", loc(site), "extend / +=",
+                      f"`{norm(p)[:70]}` runs once per iteration but keeps only the last cascade's tasks: tasks cancelled by the earlier "
+                      "iterations are CANCELLED without a TASK_CANCEL event, row or count")
     for site in sites:
         fl = Flow(ctx.repo, _task_cancel_event_sink)
         p = parent(site)
@@ -612,6 +626,13 @@ def r9_cascade_exemptions(ctx: Context) -> None:
     cancel_stmt = next((x for x in lp.body if isinstance(x, ast.Expr) and isinstance(x.value, ast.Call)
                         and call_name(x.value) == "cancel" and isinstance(x.value.func.value, ast.Name) and x.value.func.value.id == lv), None)
     if cancel_stmt is None:
+        anywhere = [c for c in calls_in(fn, "cancel") if isinstance(c.func, ast.Attribute) and isinstance(c.func.value, ast.Name)]
+        if anywhere:
+            ctx.violation("C06.R11", "TaskGraph.cancel|visited tasks are cancelled during the traversal", loc(anywhere[0]),
+                          "the traversal only collects tasks and cancels them afterwards: the exemption that spares a join unless all ITS parents "
+                          "are CANCELLED reads parent states that this very cascade has not updated yet, so a join whose parents are all being "
+                          "cancelled is spared and it and its descendants stay alive")
+            return
         raise AnalysisError("TaskGraph.cancel: `<visited>.cancel(time)` is not a top-level statement of the traversal")
     exemptions = [x for x in lp.body if isinstance(x, ast.If) and x.lineno < cancel_stmt.lineno
                   and any(isinstance(y, (ast.Break, ast.Continue, ast.Return)) for y in ast.walk(x))]
